@@ -151,6 +151,18 @@ func (fc *FnCtx) notAllocated(v Val, t types.Type) string {
 	return and(fs...)
 }
 
+// resetSent: (re)defining an SSA value that is sent somewhere clears its hand-off flags.
+func (fc *FnCtx) resetSent(v ssa.Value) {
+	names := fc.sentOf[v]
+	if len(names) == 0 {
+		return
+	}
+	fc.ghost = cloneMap(fc.ghost)
+	for _, n := range names {
+		fc.ghost[n] = "false"
+	}
+}
+
 // bornBefore: the reference held by v (if any) was allocated no later than the current allocation clock.
 func (fc *FnCtx) bornBefore(v Val, t types.Type) string {
 	now, ok := fc.ghost["now"]
@@ -576,6 +588,16 @@ func (fc *FnCtx) exec(in ssa.Instruction) {
 		st := derefType(x.X.Type())
 		s, _ := structOf(st)
 		fc.oblige("nil", fc.srcText(x.Pos()), not(eq(base.T, "0")), nil, "pointer is not nil in field access", x.Pos())
+		for _, name := range fc.sentOf[x.X] {
+			// named after the send (not after the access) so that the same accesses keep their names when they move
+			what := name
+			for _, st := range fc.sentAt {
+				if st.name == name {
+					what = fc.srcText(st.instr.Pos())
+				}
+			}
+			fc.oblige("handoff", what, not(fc.ghost[name]), nil, "the object is not accessed ("+fc.srcText(x.Pos())+") after it was handed to another goroutine over a channel", x.Pos())
+		}
 		fc.vals[x] = fc.fieldAddr(st, s.Field(x.Field), base.T)
 	case *ssa.IndexAddr:
 		fc.execIndexAddr(x)
@@ -620,6 +642,12 @@ func (fc *FnCtx) exec(in ssa.Instruction) {
 	case *ssa.Send:
 		fc.hookAnchor("send", fc.srcText(x.Pos()), x, nil, nil)
 		fc.blockingPoint("send", x.Pos())
+		for _, st := range fc.sentAt {
+			if st.instr == x {
+				fc.ghost = cloneMap(fc.ghost)
+				fc.ghost[st.name] = "true"
+			}
+		}
 	case *ssa.Go:
 		fc.execGo(x)
 	case *ssa.Defer:
@@ -1328,11 +1356,11 @@ func (fc *FnCtx) execReturn(x *ssa.Return) {
 	}
 	env.inPost = true
 	for i, en := range fc.con.Ensures {
-		if fc.con.Trusted != "" {
-			// trusted contract: the postconditions are assumed at call sites, not proved on this body
-			// (safety obligations of the body are still generated); reported in the trusted base
+		if fc.con.Trusted != "" && en.Label == "" {
+			// trusted contract: the unlabelled postconditions are assumed at call sites, not proved on this body
+			// (safety obligations of the body and labelled postconditions are still proved); reported in the trusted base
 			fc.trusted["postconditions of "+fc.name+" are assumed, not proved: "+fc.con.Trusted] = true
-			break
+			continue
 		}
 		t := fc.evalBool(en.E, env)
 		detail := fmt.Sprintf("%d", i+1)
